@@ -33,6 +33,10 @@ class Module:
     def label_sig(self, label, detail):
         return label
 
+    def design_proofs(self, prop, tier, sc):
+        """optional unbounded design-level results (Apalache); -> dict for the evidence file"""
+        return None
+
     def timing_sensitive(self, rejection):
         return False
 
@@ -85,10 +89,12 @@ def run(mod, prop, tier, replay=None, dev=False):
         mc_states = mc_trans = 0
         mc_names = collections.OrderedDict()
         traces = []
+        proofs = None
         if replay:
             first = open(replay).readline()
             traces.append(("replay", replay, mod.replay_module(first)))
         else:
+            proofs = mod.design_proofs(prop, tier, sc)
             cfgs = mod.mc_configs(prop, tier, sd)
             log("[%s] TLC: %d model-checking configurations of %s" % (prop, len(cfgs), mod.name))
             nw = max(1, min(4, len(cfgs)))
@@ -199,6 +205,7 @@ def run(mod, prop, tier, replay=None, dev=False):
             "evaluations": int(tstats.get("scenarios", 0)), "distinct_nontrivial": int(tstats.get("scenarios", 0)),
             "rule": mod.rule(),
             "model_checking_configurations": mc_names,
+            "unbounded_design_results": proofs,
             "trace_events_validated": nlines,
             "validation_outcomes": {k: int(v) for k, v in tstats.items() if k != "tlc_states"},
             "rejections_for_this_property": len(rejections),
